@@ -135,6 +135,9 @@ pub struct Ctx {
     helper_skips_in_row: u32,
     /// Bound on consecutive pass-overs of woken helper threads.
     pub helper_skip_cap: u32,
+    /// A helper runs at most once per this many hand-over points (0 = no such limit): a steadily slow thread.
+    pub helper_gap: u32,
+    points_since_helper: u32,
     pub port_space: u32,
     h3_calls: u32,
     pub run_index: u64,
@@ -533,6 +536,17 @@ fn run_helpers() {
         // A slow helper thread: woken helpers are passed over for a bounded number of hand-over points.
         {
             let mut c = shared.lock().unwrap();
+            if c.helper_gap > 0 && c.aborted.is_none() {
+                c.points_since_helper += 1;
+                if c.points_since_helper < c.helper_gap {
+                    *c.probes.entry("helper_thread_passed_over").or_insert(0) += 1;
+                    if let Some(w) = &c.root_waker {
+                        w.wake_by_ref();
+                    }
+                    return;
+                }
+                c.points_since_helper = 0;
+            }
             if c.helper_skip_permille > 0 && c.helper_skips_in_row < c.helper_skip_cap && c.aborted.is_none() {
                 let d = c.draw(1000);
                 if d >= 1000 - c.helper_skip_permille {
@@ -762,6 +776,8 @@ where
         helper_skip_permille: 0,
         helper_skips_in_row: 0,
         helper_skip_cap: 64,
+        helper_gap: 0,
+        points_since_helper: 0,
         port_space: 0,
         h3_calls: 0,
         run_index: rc.index,
@@ -818,6 +834,7 @@ where
         c.defer_permille = 0;
         c.slow_permille = 0;
         c.helper_skip_permille = 0;
+        c.helper_gap = 0;
         c.defer_budget = 0;
         for t in c.tasks.values_mut() {
             t.slow = false;
@@ -864,13 +881,16 @@ pub fn draw_sched_policy() {
     let helper_skip = pick(&[0u32, 0, 0, 0, 500, 950]);
     // A very slow helper (thousands of task polls pass before it runs) lets its input queue fill up.
     let helper_cap = if helper_skip > 0 { pick(&[64u32, 64, 3000]) } else { 64 };
+    // A steadily slow helper: one step per 40 / 120 hand-over points, far slower than chunks arrive.
+    let helper_gap = pick(&[0u32, 0, 0, 0, 0, 40, 120]);
     with(|c| {
         c.defer_permille = permille;
         c.slow_permille = slow;
         c.helper_skip_permille = helper_skip;
         c.helper_skip_cap = helper_cap;
+        c.helper_gap = helper_gap;
     });
-    mix_plan(permille as u64 * 1000 + slow as u64 + helper_skip as u64 * 1_000_000);
+    mix_plan(permille as u64 * 1000 + slow as u64 + helper_skip as u64 * 1_000_000 + helper_gap as u64 * 1_000_000_000);
 }
 
 pub fn set_sched_policy(defer_permille: u32, slow_permille: u32) {
